@@ -119,6 +119,7 @@ FieldStep(d, i, f, raw, acc) ==
                later == d.i253 > i          \* the record's own timestamp follows
            IN
            IF lv = Ones4 THEN acc
+           ELSE IF acc.enc THEN [acc EXCEPT !.msg = Put(@, s, WallOnly(lv))]
            ELSE IF acc.ts.k = "val" /\ Hi(acc.ts.v) >= 4096
                 THEN [acc EXCEPT !.msg = Put(@, s, IF later THEN WallOnly(lv) ELSE acc.ts.v \o Diff64(lv, acc.ts.v))]
            ELSE IF acc.ts.k = "none"
@@ -142,7 +143,7 @@ FieldsFrom(in, d, i, q, acc) ==
                     IF d.known /\ f.has THEN FieldStep(d, i, f, SubSeq(in, q, q + f.sz - 1), acc) ELSE acc)
 
 \* data record at pos with definition d; coff = -1 or the 5-bit time offset
-DataAt(in, pos, avail, d, coff, ts) ==
+DataAt(in, pos, avail, d, coff, ts, enc) ==
     IF pos + d.dlen > avail THEN [st |-> "trunc"]
     ELSE
     LET has253 == HasField(d.m, 253) /\ PF(d.m, 253).k = 1
@@ -151,7 +152,7 @@ DataAt(in, pos, avail, d, coff, ts) ==
         ts1    == IF coff >= 0 /\ ts.k = "val" THEN TsVal(newv) ELSE ts
         a0     == [msg |-> IF coff >= 0 /\ ts.k = "val" /\ has253 /\ ts1.k = "val" THEN (s253 :> TimeVal(newv)) ELSE << >>,
                    skip |-> IF coff >= 0 /\ has253 /\ (ts.k # "val" \/ ts1.k # "val") THEN {s253} ELSE {},
-                   ts |-> ts1]
+                   ts |-> ts1, enc |-> enc]
         r      == FieldsFrom(in, d, 1, pos + 1, a0)
     IN  [st |-> "ok", len |-> 1 + d.dlen, msg |-> r.msg, skip |-> r.skip, ts |-> r.ts]
 
@@ -248,8 +249,10 @@ ComponentMsgs == {18, 19, 20, 21, 142}
 (* Decoder state and step *)
 
 \* mode: "full" | "fileid" (DecodeHeaderAndFileID) | "header" | "crc" (CheckIntegrity)
-InitDec(base, mode) ==
-    [ base |-> base, mode |-> mode, phase |-> "hdr", pos |-> base + 1, dend |-> 0, hdr |-> [st |-> "none"],
+\* enc = TRUE: the bytes are the output of Encode and are compared with the
+\* File that was encoded - no component expansion, local times by wall clock
+InitDec(base, mode, enc) ==
+    [ base |-> base, mode |-> mode, enc |-> enc, phase |-> "hdr", pos |-> base + 1, dend |-> 0, hdr |-> [st |-> "none"],
       defs |-> [l \in 0..15 |-> NoDef], ts |-> TsNone, accs |-> AccsZero,
       ftype |-> -1, fileid |-> << >>, fileidskip |-> {}, fileids |-> 0, creator |-> << >>, creatorskip |-> {}, hascreator |-> FALSE, tc |-> << >>, tcskip |-> {}, hastc |-> FALSE,
       cnt |-> << >>, single |-> << >>, unkm |-> << >>, unkf |-> << >>, nrec |-> 0,
@@ -267,7 +270,7 @@ Deliver(dec, d, r) ==
     LET m == d.m
         explicit == { d.flds[i].n : i \in DOMAIN d.flds }
         slot == Route(dec.ftype, m)
-        expand == m \in ComponentMsgs /\ slot.m = m
+        expand == m \in ComponentMsgs /\ slot.m = m /\ ~dec.enc
         x == IF ~expand THEN [r |-> r, accs |-> dec.accs, raw |-> [csd |-> FALSE, cyc |-> FALSE, pow |-> FALSE]]
              ELSE IF m = 20 THEN ExpandRecord(r, explicit, dec.accs)
              ELSE IF m = 21 THEN [r |-> ExpandEvent(r, explicit), accs |-> dec.accs, raw |-> [csd |-> FALSE, cyc |-> FALSE, pow |-> FALSE]]
@@ -342,7 +345,7 @@ Step(in, avail, dec) ==
                IN
                IF d = NoDef THEN [dec |-> Stop(dec, "reject", "no definition for local type"), out |-> NoOut]
                ELSE
-               LET r == DataAt(in, dec.pos, avail, d, IF kind = "cdata" THEN h % 32 ELSE -1, dec.ts) IN
+               LET r == DataAt(in, dec.pos, avail, d, IF kind = "cdata" THEN h % 32 ELSE -1, dec.ts, dec.enc) IN
                IF r.st = "trunc" THEN [dec |-> Stop(dec, "reject", "truncated record"), out |-> NoOut]
                ELSE IF dec.pos + r.len - 1 > dec.dend THEN [dec |-> Stop(dec, "either", "record crosses data size"), out |-> NoOut]
                ELSE
